@@ -67,9 +67,8 @@ func short(b []byte) string {
 	return string(b)
 }
 
-// loadDroppedFork feeds the stores the variant scenario and reorgs all of it away. ok=false: the scenario has no bridge
-// to vary (or the variant is not a scenario of the same shape).
-func loadDroppedFork(ctx context.Context, st *world.Stores, ops []world.Op) (bool, error) {
+// contentVariant: the same scenario in which the FIRST L1 bridge and the first L2 bridge are different transactions.
+func contentVariant(ops []world.Op) ([]world.Op, bool) {
 	ops2 := append([]world.Op{}, ops...)
 	seenL1, seenL2 := false, false
 	for i, o := range ops2 {
@@ -80,9 +79,49 @@ func loadDroppedFork(ctx context.Context, st *world.Stores, ops []world.Op) (boo
 			ops2[i].A, seenL2 = (o.A+2)%4, true //nolint:mnd
 		}
 	}
-	if !seenL1 && !seenL2 {
-		return false, nil
+	return ops2, seenL1 || seenL2
+}
+
+// orderVariant: the same operations in another order on L1 — the first operation that adds an L1 info leaf (an L1
+// deposit, a verification) and is preceded by a leaf-adding operation of another kind moves to the front, so the L1
+// info leaf indices that cover a given deposit count differ between the dropped fork and the canonical chain.
+func orderVariant(ops []world.Op) ([]world.Op, bool) {
+	adds := func(k world.OpKind) bool { return k == world.L1Deposit || k == world.VerifyRollupB || k == world.VerifyL2 }
+	first := -1
+	for j, o := range ops {
+		if !adds(o.Kind) {
+			continue
+		}
+		if first < 0 {
+			first = j
+			continue
+		}
+		if o.Kind != ops[first].Kind && (o.Kind == world.L1Deposit || ops[first].Kind == world.L1Deposit) {
+			ops2 := append([]world.Op{o}, ops[:j]...)
+			return append(ops2, ops[j+1:]...), true
+		}
 	}
+	return nil, false
+}
+
+// warmService asks the service every question of the claim flow for every bridge and leaf of world w2 (answers ignored):
+// a service that has been serving requests while the stores were on another fork.
+func warmService(svc *bridgeservice.BridgeService, w2 *world.World) {
+	leaves := w2.ObservableLeaves()
+	for _, deps := range [][]*world.Deposit{w2.L1Deps, w2.L2Deps} {
+		for _, d := range deps {
+			for _, l := range leaves {
+				call(svc.ClaimProofHandler, fmt.Sprintf("network_id=%d&leaf_index=%d&deposit_count=%d", d.Net, l.Index, d.Count))
+				call(svc.InjectedL1InfoLeafHandler, fmt.Sprintf("network_id=%d&leaf_index=%d", world.NetL2, l.Index))
+			}
+			call(svc.L1InfoTreeIndexForBridgeHandler, fmt.Sprintf("network_id=%d&deposit_count=%d", d.Net, d.Count))
+		}
+	}
+}
+
+// loadDroppedFork feeds the stores the variant scenario, lets the service answer requests on it, and reorgs all of it
+// away. ok=false: the variant is not a consistent scenario.
+func loadDroppedFork(ctx context.Context, st *world.Stores, svc *bridgeservice.BridgeService, ops2 []world.Op) (bool, error) {
 	w2, err := world.Build(ops2)
 	if err != nil {
 		return false, nil
@@ -96,6 +135,7 @@ func loadDroppedFork(ctx context.Context, st *world.Stores, ops []world.Op) (boo
 		}
 		_ = w2.LoadLastGERBlock(ctx, st, b) // (may be stuck on two injections in one block, see below)
 	}
+	warmService(svc, w2)
 	if err := st.L1Bridge.VerifStore().Reorg(ctx, 1); err != nil {
 		return false, fmt.Errorf("L1 bridge store Reorg(1): %w", err)
 	}
@@ -125,14 +165,24 @@ func run(c *mc.Ctx, u mc.Unit) {
 		panic(err)
 	}
 	defer st.Close()
-	// The stores may have synced another fork first: the same scenario in which the FIRST L1 bridge and the first L2
-	// bridge are different ones (every later bridge is the same transaction re-included), reorged away from block 1.
-	if c.Bool("stores-synced-another-fork-first") {
-		if ok, herr := loadDroppedFork(ctx, st, p.Ops); herr != nil {
-			c.Failf("world-sanity/dropped-fork", "%s: %v", scen, herr)
-			return
-		} else if ok {
-			c.Witness("stores_that_synced_another_fork_first")
+	// one long-lived service over the stores, created before anything is synced (as in cmd/run.go)
+	svc := bridgeservice.New(&bridgeservice.Config{Logger: kit.Logger(), Address: "127.0.0.1:0", ReadTimeout: time.Minute,
+		WriteTimeout: time.Minute, NetworkID: world.NetL2}, st.L1Info, st.LastGER, st.L1Bridge, st.L2Bridge)
+	// The stores may have synced another fork first, reorged away from block 1, while the service was answering requests:
+	// 1 = the same scenario in which the FIRST L1 bridge and the first L2 bridge are different ones (every later bridge is
+	// the same transaction re-included); 2 = the same operations in another order on L1 (other leaf indices cover a bridge).
+	if v := c.Choose(3, "stores-synced-another-fork-first"); v > 0 {
+		ops2, ok := contentVariant(p.Ops)
+		if v == 2 {
+			ops2, ok = orderVariant(p.Ops)
+		}
+		if ok {
+			if ok, herr := loadDroppedFork(ctx, st, svc, ops2); herr != nil {
+				c.Failf("world-sanity/dropped-fork", "%s: %v", scen, herr)
+				return
+			} else if ok {
+				c.Witness(fmt.Sprintf("stores_that_synced_another_fork_first/variant%d", v))
+			}
 		}
 	}
 	if err := w.LoadL1(ctx, st, world.Seed64(p.Ops)%2 == 1); err != nil {
@@ -175,9 +225,6 @@ func run(c *mc.Ctx, u mc.Unit) {
 		c.Failf("world-sanity/l2-store-differs-from-reference", "%s: %v", scen, err)
 		return
 	}
-	svc := bridgeservice.New(&bridgeservice.Config{Logger: kit.Logger(), Address: "127.0.0.1:0", ReadTimeout: time.Minute,
-		WriteTimeout: time.Minute, NetworkID: world.NetL2}, st.L1Info, st.LastGER, st.L1Bridge, st.L2Bridge)
-
 	leaves := w.ObservableLeaves()
 	injected := map[uint32]bool{}
 	for _, l := range w.Injected {
